@@ -856,9 +856,24 @@ func (p *printer) printSemicolonIfNeeded() {
 }
 
 func (p *printer) printSpaceBeforeIdentifier() {
-	if c, _ := utf8.DecodeLastRune(p.js); js_ast.IsIdentifierContinue(c) || p.prevRegExpEnd == len(p.js) {
+	if c, _ := utf8.DecodeLastRune(p.js); js_ast.IsIdentifierContinue(c) || p.prevRegExpEnd == len(p.js) ||
+		(c == '}' && endsWithBracedUnicodeEscape(p.js)) {
 		p.print(" ")
 	}
+}
+
+// An identifier that ends in a code point above U+FFFF is printed as "\u{10000}"
+// when the output is ASCII-only, so the identifier ends in "}"
+func endsWithBracedUnicodeEscape(js []byte) bool {
+	i := len(js) - 1
+	if i < 0 || js[i] != '}' {
+		return false
+	}
+	i--
+	for i >= 0 && ((js[i] >= '0' && js[i] <= '9') || (js[i] >= 'A' && js[i] <= 'F') || (js[i] >= 'a' && js[i] <= 'f')) {
+		i--
+	}
+	return i >= 2 && i < len(js)-2 && js[i] == '{' && js[i-1] == 'u' && js[i-2] == '\\'
 }
 
 type fnArgsOpts struct {
